@@ -8,6 +8,7 @@ pub mod c06;
 pub mod c08;
 pub mod c09;
 pub mod c10;
+pub mod c11;
 pub mod c12;
 pub mod c13;
 pub mod c14;
@@ -30,6 +31,7 @@ pub fn dispatch(ctx: &Ctx, findings: &Findings) -> Option<PropReport> {
         "C08" => c08::run(ctx, findings),
         "C09" => c09::run(ctx, findings),
         "C10" => c10::run(ctx, findings),
+        "C11" => c11::run(ctx, findings),
         "C12" => c12::run(ctx, findings),
         "C13" => c13::run(ctx, findings),
         "C14" => c14::run(ctx, findings),
